@@ -1,6 +1,10 @@
 package main
 
 import (
+	"encoding/json"
+	"os"
+	"path/filepath"
+	"sort"
 	"strings"
 
 	"verif/internal/effects"
@@ -162,6 +166,10 @@ func init() {
 	extendProp("C01", "report-positions (see C06): a panic while building an error report is a crash.",
 		[]report.Floor{{Rule: "report-positions", What: "reports", Min: 4}},
 		func(c *Ctx) { defer c.cleanup(); c.flowRule("report-positions", flowRules["report-positions"]) })
+	const ko = "kind-oracle: per production (keyed by left-hand side and right-hand side) the set of kinds its action can return - a node kind, a right-hand-side symbol passed on, a list, nil - equals the table testdata/oracle/production_kinds.json (1014 productions of both grammars, produced from the pinned tree; kind-of-operator decides the operator productions from PHP's operator table independently). A construct that becomes another node kind is printed the same and accepted silently, but it is another program to the formatter and to every consumer (round 6 seeds C03-17 = C17-16: `foreach ($a as [$x, $y])` built an ExprArray instead of an ExprList; formatted as `array($x, $y)`, which does not parse there)."
+	for _, id := range []string{"C03", "C17", "C10"} {
+		extendProp(id, ko, []report.Floor{{Rule: "kind-oracle", What: "productions", Min: 1000}}, func(c *Ctx) { defer c.cleanup(); c.kindOracle() })
+	}
 	extendProp("C14", "presence-oracle: which slots of which node kinds a silently parsed tree may leave empty equals the reviewed table - a name node's kind is told by its tokens (a NameRelative has its `namespace` keyword, a NameFullyQualified its leading separator), and the resolver chooses the rule by kind (seed C14-13: `\\Vendor\\X` in a PHP 5 constant expression built as a NameRelative without the keyword, resolved against the current namespace).",
 		[]report.Floor{{Rule: "presence-oracle", What: "slots", Min: 1100}},
 		func(c *Ctx) { defer c.cleanup(); c.presenceOracle() })
@@ -174,4 +182,87 @@ func init() {
 	for _, id := range []string{"C03", "C04", "C08"} {
 		properties[id].Technique += "; language inclusion on the product of the scanner's transition system with the automaton of PHP's lexemes per token id"
 	}
+}
+
+// kindOracle: per production, the set of node kinds its action can return equals the table
+// testdata/oracle/production_kinds.json (fixture: the table of the good fixture grammar for both fixture grammars).
+func (c *Ctx) kindOracle() {
+	type tableFile struct {
+		Comment string                         `json:"comment"`
+		Tables  map[string]map[string][]string `json:"tables"`
+	}
+	compare := func(res *report.RuleResult, dir, path string, labels [][2]string) {
+		dump := os.Getenv("VERIF_DUMP_KINDS") != ""
+		tf := tableFile{Tables: map[string]map[string][]string{}}
+		if !dump {
+			b, err := os.ReadFile(path)
+			if err != nil || json.Unmarshal(b, &tf) != nil {
+				res.Unknown("oracle", path, "", "undecided:anchor: the table cannot be read")
+				return
+			}
+		}
+		for _, lb := range labels {
+			label, oname := lb[0], lb[1]
+			f, _ := c.flow(dir, label)
+			if f == nil {
+				res.Unknown(label, "", "", "undecided: the grammar's actions could not be interpreted")
+				continue
+			}
+			got := f.ProductionKinds()
+			if dump {
+				tf.Tables[label] = got
+				continue
+			}
+			want := tf.Tables[oname]
+			var keys []string
+			seen := map[string]bool{}
+			for k := range got {
+				keys, seen[k] = append(keys, k), true
+			}
+			for k := range want {
+				if !seen[k] {
+					keys = append(keys, k)
+				}
+			}
+			sort.Strings(keys)
+			for _, k := range keys {
+				res.Count("productions", 1)
+				g, w := strings.Join(got[k], ", "), strings.Join(want[k], ", ")
+				key := label + ":" + k
+				switch {
+				case g == w:
+					res.OK(key, "", k, "builds "+g)
+				case want[k] == nil:
+					res.Bad(key, "", k, "a production the table does not have (builds "+g+"): the grammar accepts or structures something differently")
+				case got[k] == nil:
+					res.Bad(key, "", k, "the table has this production (building "+w+"), the grammar no longer does")
+				default:
+					res.Bad(key, "", k, "builds "+g+"; the table says "+w+": the construct becomes another node kind")
+				}
+			}
+		}
+		if dump {
+			tf.Comment = "per production (left-hand side: right-hand side) the kinds its action can return: a node kind, =$i (a right-hand-side symbol passed on), list, nil"
+			b, _ := json.MarshalIndent(tf, "", " ")
+			os.WriteFile(path, append(b, '\n'), 0644)
+		}
+	}
+	if !c.NoFixtures {
+		dir := filepath.Join(c.Verif, "testdata", "fixture", "mini")
+		fres := report.NewResult("kind-oracle")
+		compare(fres, dir, filepath.Join(dir, "production_kinds.json"), [][2]string{{"yok", "yok"}, {"ybad", "yok"}})
+		if os.Getenv("VERIF_DUMP_KINDS") == "" {
+			c.compareFixture("mini", "kind-oracle", dir, fres)
+		}
+	}
+	res := report.NewResult("kind-oracle")
+	defer c.Add(res)
+	if _, _, ok := c.RepoProgram(false); !ok {
+		return
+	}
+	compare(res, c.Repo, filepath.Join(c.Verif, "testdata", "oracle", "production_kinds.json"), [][2]string{{"php5", "php5"}, {"php7", "php7"}})
+}
+
+func init() {
+	properties["KO"] = &Property{Level: "other", Engine: "yyflow", Run: func(c *Ctx) { defer c.cleanup(); c.kindOracle() }}
 }
